@@ -250,7 +250,14 @@ macro_rules! typed_events {
             } else {
                 [x[0] as $T, x[1] as $T, x[2] as $T]
             };
-            let base = json!({"ev": "conv", "t": <$T as Ex>::NAME, "params": pv.id, "pk": pk, "w": w, "x": ex_arr(&x), "pv": pv.describe(), "pj": pv.to_json()});
+            // the viewing conditions as exact numbers of the component type, for the reference model of the specification:
+            // la, yb; sp: surround in percent (dark 0, dim 10, average 20, or the given percentage); dk/dv: discounting;
+            // wk: name of the adopted white, wx / wz: X and Z of a custom one (Y = 1)
+            let sp: $T = match &pv.sur { Sur::Dark => 0.0, Sur::Dim => 10.0, Sur::Average => 20.0, Sur::Percent(p) => *p as $T };
+            let (dk, dv): (&str, $T) = match &pv.disc { Disc::Auto => ("auto", 0.0), Disc::Custom(d) => ("custom", *d as $T) };
+            let vc = json!({"la": (pv.la as $T).ex(), "yb": (pv.yb as $T).ex(), "sp": sp.ex(), "dk": dk, "dv": dv.ex(),
+                            "wk": WHITES[pv.white], "wx": (pv.custom[0] as $T).ex(), "wz": (pv.custom[1] as $T).ex()});
+            let base = json!({"ev": "conv", "t": <$T as Ex>::NAME, "params": pv.id, "pk": pk, "w": w, "x": ex_arr(&x), "pv": pv.describe(), "pj": pv.to_json(), "vc": vc});
             let r = catch(|| $make(pv).conv(pk, x));
             let mut o = base.as_object().unwrap().clone();
             match r {
